@@ -4,6 +4,7 @@ import EmsModel.Lemmas.Polygons
 import EmsModel.Lemmas.GeomBox
 import EmsModel.Lemmas.BBox
 import EmsModel.Lemmas.NpPipelines
+import EmsModel.Lemmas.NpDerived2d
 import Mathlib.Algebra.Order.Field.Rat
 import Mathlib.Tactic.NormNum
 import Mathlib.Tactic.Linarith
@@ -464,5 +465,56 @@ example : (eval (centresEnv [some 0, some 2, some 6] [some 10, some 20]) Gen.cf1
   decide +kernel
 /-- what is not understood evaluates to nothing -/
 example : eval (midEnv [some 0, some 2]) (.unsupported "numpy.foo(values)") = none := rfl
+
+/-! ### The derived 2-D bounds, as the source has them
+
+`Ems.Gen.cf2dDerivedBounds` is the derived-bounds branch of `CFGrid2DTopology._get_or_make_bounds` (used by CF 2-D and
+SHOC simple datasets whose coordinates carry no bounds), translated from the source text like the five pipelines
+above: `coordinate.values.copy()`, `numpy.isnan`, `numpy.pad(…, constant_values=False)`, `[:-2, :] & [2:, :]`, `|`,
+the assignment `coordinate_values[bound_by_nan] = numpy.nan` (a functional update of the local), the comprehension over
+`itertools.product([(1, 0), (0, 1)], [(1, 0), (0, 1)])` unrolled into the four `numpy.pad(…, constant_values=numpy.nan)`,
+`numpy.nanmean(…, axis=0)`, the `numpy.stack` of the four shifted views, `numpy.isnan(bounds).any(axis=2)` and
+`bounds[cells_with_nans] = numpy.nan`. -/
+
+/-- **The derived-bounds branch of `CFGrid2DTopology._get_or_make_bounds`, as written in the source**, on every
+`ny × nx` array of coordinate values (`none` = NaN) yields exactly the `(ny, nx, 4)` array of `derived2d c ny nx`
+— the hand model `cf2d_polygon_at` and the correspondence are about: cells bound by NaN on both sides along an axis
+are discarded, every corner is the `nanmean` of the up-to-four surrounding centres, and a cell has its four corners
+`(j,i) (j,i+1) (j+1,i+1) (j+1,i)` or four NaNs (`cornersArr`). -/
+theorem cf2d_derived_pipeline_spec (c : List (List (Option Rat))) (ny nx : Nat)
+    (hl : c.length = ny) (hr : ∀ r ∈ c, r.length = nx) :
+    eval (derived2dEnv c nx) Gen.cf2dDerivedBounds = some (cornersArr (derived2d c ny nx) nx) :=
+  cf2d_derived_pipeline c ny nx hl hr
+
+/-- the shape of the result is `(ny, nx, 4)` -/
+theorem cf2d_derived_shape (c : List (List (Option Rat))) (ny nx : Nat) (hl : c.length = ny) :
+    shapeOf (derived2dEnv c nx) Gen.cf2dDerivedBounds = some [ny, nx, 4] :=
+  d2_shape c ny nx hl
+
+/-- element `[j, i, k]` of the generated term, read through the index maps of the operations, is `bounds[j, i, k]` of
+the source read line by line over natural-number indexes (`D2.res`: `nan_coordinates`, `j_pad`, `i_pad`, `bound_by_nan`,
+the masked `coordinate_values`, the four padded copies, `grid`, the four shifted views, `cells_with_nans`) -/
+theorem cf2d_derived_get (c : List (List (Option Rat))) (ny nx : Nat)
+    (hl : c.length = ny) (hr : ∀ r ∈ c, r.length = nx) (j i k : Nat) (hk : k < 4) :
+    getOf (derived2dEnv c nx) Gen.cf2dDerivedBounds [j, i, k] = D2.res c ny nx j i k :=
+  d2_term_get c ny nx hl hr j i k hk
+
+/-! non-vacuity: a 2 x 3 sheared grid (corners are means of 1, 2 and 4 centres), and a 3 x 3 grid with a missing
+centre: the corners around it are means of 3 centres (and the cell itself, all four of its corners being present,
+has bounds); a 1 x 3 river cell bound by NaN on both sides is discarded
+and takes its neighbours' corners with it -/
+example : eval (derived2dEnv [[some 0, some 12, some 24], [some 6, some 18, some 30]] 3) Gen.cf2dDerivedBounds
+    = some (cornersArr [[some [0, 6, 9, 3], some [6, 18, 21, 9], some [18, 24, 27, 21]],
+                        [some [3, 9, 12, 6], some [9, 21, 24, 12], some [21, 27, 30, 24]]] 3) := by
+  decide +kernel
+example : eval (derived2dEnv [[some 0, some 12, some 24], [some 6, none, some 30], [some 12, some 24, some 36]] 3)
+      Gen.cf2dDerivedBounds
+    = some (cornersArr [[some [0, 6, 6, 3], some [6, 18, 22, 6], some [18, 24, 27, 22]],
+                        [some [3, 6, 14, 9], some [6, 22, 30, 14], some [22, 27, 33, 30]],
+                        [some [9, 14, 18, 12], some [14, 30, 30, 18], some [30, 33, 36, 30]]] 3) := by
+  decide +kernel
+example : eval (derived2dEnv [[none, some 4, none]] 3) Gen.cf2dDerivedBounds
+    = some (cornersArr [[none, none, none]] 3) := by
+  decide +kernel
 
 end Ems.C06
